@@ -180,7 +180,6 @@ func (h *killedHandler) handleRestart() {
 	} else {
 		h.ctx.restarting = nil
 		atomic.StoreInt32(&h.ctx.state, running)
-		h.ctx.tell(true, h.ctx.ref, new(vivid.OnLaunch))
 		h.ctx.mailbox.Resume()
 
 		// 通知事件流
@@ -193,5 +192,9 @@ func (h *killedHandler) handleRestart() {
 			ActorRef: h.ctx.ref,
 			Type:     reflect.TypeOf(h.ctx.actor),
 		})
+
+		// 新实例的 OnLaunch 必须先于任何其它消息被处理：若通过邮箱投递，已排在系统队列中的消息
+		// （例如并发监管决策产生的第二个 RestartMessage 或 OnKill）会先于 OnLaunch 到达新实例，因此在重启流程的最后直接处理
+		h.ctx.HandleEnvelop(mailbox.NewEnvelop(true, h.ctx.ref, h.ctx.ref, new(vivid.OnLaunch)))
 	}
 }
